@@ -22,9 +22,11 @@ pub enum Signal {
     PositionCoded,
     SmoothRandomWalk,
     Mixed,
+    QuietPeriodic,
+    QuietTonal,
 }
 
-pub const ALL_SIGNALS: [Signal; 18] = [
+pub const ALL_SIGNALS: [Signal; 20] = [
     Signal::Silence,
     Signal::Constant,
     Signal::FullScaleSquare,
@@ -43,6 +45,8 @@ pub const ALL_SIGNALS: [Signal; 18] = [
     Signal::PositionCoded,
     Signal::SmoothRandomWalk,
     Signal::Mixed,
+    Signal::QuietPeriodic,
+    Signal::QuietTonal,
 ];
 
 pub fn lo(bps: u32) -> i64 {
@@ -216,6 +220,28 @@ pub fn generate(sig: Signal, channels: usize, bps: u32, frames: usize, rng: &mut
                         v = v.clamp(l, h);
                     }
                     out[i * channels + c] = v as i32;
+                }
+            }
+        }
+        Signal::QuietPeriodic => {
+            // a short low-amplitude pattern repeated exactly: FIXED predictors do well, LPC does better
+            let period = rng.usize(3, 12);
+            let abits = if rng.chance(2, 3) { 2 } else { rng.usize(2, (bps as usize).clamp(3, 9) - 1) as u32 }.min(bps.max(2) - 1).max(1);
+            let pats: Vec<Vec<i64>> = (0..channels).map(|_| (0..period).map(|_| rng.range(lo(abits).max(l), hi(abits).min(h))).collect()).collect();
+            for i in 0..frames {
+                for c in 0..channels {
+                    out[i * channels + c] = pats[c][i % period] as i32;
+                }
+            }
+        }
+        Signal::QuietTonal => {
+            // sum of two quiet sines at high bit depth
+            let a = (amp / 4096.0).max(2.0).min(amp);
+            let (f1, f2) = (0.01 + rng.f64() * 0.1, 0.002 + rng.f64() * 0.3);
+            for i in 0..frames {
+                for c in 0..channels {
+                    let v = a * ((i as f64 * f1 * std::f64::consts::TAU).sin() + 0.5 * (i as f64 * f2 * std::f64::consts::TAU + c as f64).sin());
+                    out[i * channels + c] = clip(v.round() as i64, bps);
                 }
             }
         }
